@@ -36,10 +36,26 @@ fn main() {
                 vfiles.push(f);
                 jsons.push(Vec::new());
             }
+            let mut hang_confirmed = false;
+            let mut hang_rechecks = 0u32;
             for k in 0..count {
                 let idx = from + k;
                 let s = runstream::gen_sched(master, idx, &profile);
-                let (o, actions) = runstream::run_schedule_ex(&s, None);
+                let (mut o, mut actions) = runstream::run_schedule_ex(&s, None);
+                if !hang_confirmed && hang_rechecks < 8 && o.events.iter().any(|e| matches!(e, runstream::Ev::Hang)) {
+                    hang_rechecks += 1;
+                    // a poll exceeded the watchdog: confirm with a much longer limit before believing it
+                    // (a loaded machine can stall a poll; a real spin never returns)
+                    let mut s2 = s.clone();
+                    s2.watchdog_ms = 12_000;
+                    let (o2, a2) = runstream::run_schedule_ex(&s2, None);
+                    if !o2.events.iter().any(|e| matches!(e, runstream::Ev::Hang)) {
+                        o = o2;
+                        actions = a2;
+                    } else {
+                        hang_confirmed = true; // reproduced: later hangs are believed without a second run
+                    }
+                }
                 let sh = (k % shards) as usize;
                 let name = format!("o{}", idx);
                 write!(vfiles[sh], "{}", runstream::obs_to_coq(&o, &name)).unwrap();
